@@ -379,3 +379,44 @@ func vh_C19_CompareTo() {
 	vfAssert("compareToOrdered", CompareToOrdered(a, b) == co)
 	vfReach("end")
 }
+
+// the builder's convenience entry points ThenWithTransformerFunctor / ThenWithFieldName build the same stacks
+func vh_C19_BuilderAliases() {
+	n := vfRange("n", 2, 3)
+	rows := c19Rows("r", n)
+	asc1, asc2 := vfChoose("asc1", 2) == 1, vfChoose("asc2", 2) == 1
+	b := NewSortDescriptorsBuilder[c19Row]()
+	if vfChoose("first-by", 2) == 0 {
+		b = b.ThenWithTransformerFunctor(func(r c19Row) Comparable[interface{}] { return r.A }, asc1)
+	} else {
+		b = b.ThenWithFieldName("A", asc1)
+	}
+	if vfChoose("second-by", 2) == 0 {
+		b = b.ThenWithTransformerFunctor(func(r c19Row) Comparable[interface{}] { return r.B }, asc2)
+	} else {
+		b = b.ThenWithFieldName("B", asc2)
+	}
+	var out []c19Row
+	if !vfNoPanic("nopanic-builder", func() { out = b.ToSortedList(rows...) }) {
+		return
+	}
+	vfAssert("builder-len", len(out) == n)
+	before := func(x, y c19Row) bool { // x strictly precedes y by (A, B) with the chosen directions
+		ltA, gtA := x.A.Val < y.A.Val, x.A.Val > y.A.Val
+		ltB, gtB := x.B.Val < y.B.Val, x.B.Val > y.B.Val
+		firstA := vfIteBool(asc1, ltA, gtA)
+		firstB := vfIteBool(asc2, ltB, gtB)
+		return vfOr(firstA, vfAnd(vfAnd(!ltA, !gtA), firstB))
+	}
+	ordered, stable := true, true
+	for i := 0; i < len(out); i++ {
+		for j := i + 1; j < len(out); j++ {
+			ordered = vfAnd(ordered, !before(out[j], out[i]))
+			tie := vfAnd(!before(out[i], out[j]), !before(out[j], out[i]))
+			stable = vfAnd(stable, vfImplies(tie, out[i].Idx < out[j].Idx))
+		}
+	}
+	vfAssert("builder-ordered", ordered)
+	vfAssert("builder-stable", stable)
+	vfReach("end")
+}
